@@ -545,16 +545,54 @@ def _dominated_by_open(cfg, cn, handle, fi):
     return ok
 
 
+def _raising_methods(prog, fi, depth=3):
+    """Names of methods of fi's class / functions of fi's module that contain a `raise`
+    statement outside a handler that re-raises... (transitively through self-calls, bounded)."""
+    out = set()
+    cands = {}
+    if fi.cls is not None:
+        for c in prog.mro(fi.cls):
+            for name, m in c.methods.items():
+                cands.setdefault(name, m)
+    for q, f in prog.functions.items():
+        if f.cls is None and f.module is fi.module:
+            cands.setdefault(f.name, f)
+    for _ in range(depth):
+        for name, m in cands.items():
+            if name in out or m is fi:
+                continue
+            for n in walk_body(m.node):
+                if isinstance(n, ast.Raise):
+                    out.add(name)
+                    break
+                if isinstance(n, ast.Call):
+                    cn = call_name(n) or ""
+                    if (cn.startswith("self.") and cn[5:] in out) or cn in out:
+                        out.add(name)
+                        break
+    return out
+
+
 @rule("RL8", "no failing acquisition or raise after a successful open() leaks the first handle", floor=2)
 def rl8(ctx, R):
     prog = ctx.prog
     for q, owner_cls in sorted(OPEN_OWNER_FUNCS.items()):
         fi = prog.func(q)
 
-        def may_raise(n, fi=fi):
+        raising_helpers = _raising_methods(prog, fi)
+
+        def may_raise(n, fi=fi, raising_helpers=raising_helpers):
             if n.kind == "raisestmt":
                 return True
-            return any(is_builtin_open(c, fi.module) for c in node_calls(n))
+            for c in node_calls(n):
+                if is_builtin_open(c, fi.module):
+                    return True
+                cn = call_name(c) or ""
+                if cn.startswith("self.") and cn[5:] in raising_helpers:
+                    return True
+                if cn in raising_helpers:
+                    return True
+            return False
         cfg = CFG(fi.node, may_raise=may_raise)
         opens = cfg.where(lambda n: n.kind == "stmt" and isinstance(n.ast, ast.Assign)
                           and isinstance(n.ast.value, ast.Call) and is_builtin_open(n.ast.value, fi.module)
